@@ -44,7 +44,7 @@ Ltac fnorm := rewrite ?fadd_u, ?fsub_u, ?fmul_u, ?fadd_ul, ?fadd_ur, ?fmul_ul, ?
 Definition row_ok_f (a : arch) (f : format) (op : Z) : Prop :=
   forall d r, vdesc_f a f op = Some d -> vrow_f a f op = Some r -> vrel d r.
 Ltac open_rowf := intros d r Hd Hr;
-  unfold vdesc_f, gf_vop2, cf_vop2, x_vop1_f, gf_vop3a, cf_vop3a in Hd;
+  unfold vdesc_f, gf_vop2, cf_vop2, c_vop1_f, x_vop1_f, gf_vop3a, cf_vop3a, x_vop3a_f64 in Hd;
   unfold vrow_f, fvop2_row, fvop1_row, fvop3a_row in Hr;
   cbv beta iota in Hd, Hr; apply some_inj in Hd; apply some_inj in Hr; subst d r.
 Ltac row_valf := open_rowf; cbv [fop2 fop3 fcompare]; vrel_start; (split; [eexists; split; [reflexivity|]|reflexivity]).
